@@ -90,6 +90,13 @@ def main():
             parts = [p.strip() for p in ln.strip().split("|")]
             if parts and parts[0]:
                 matrix[parts[0]] = parts[1:]
+    # the latest own-check results (tools/seed_matrix_par.sh: every stored change against its own property's check) override the first column
+    op_ = os.path.join(HERE, "seeded", "MATRIX_own.txt")
+    if os.path.exists(op_):
+        for ln in open(op_):
+            parts = [p.strip() for p in ln.strip().split("|")]
+            if len(parts) >= 2 and parts[0]:
+                matrix[parts[0]] = [parts[1]] + matrix.get(parts[0], [None])[1:]
     for d in sorted(glob.glob(os.path.join(HERE, "seeded", "*", "meta.json"))):
         n = os.path.basename(os.path.dirname(d))
         m = json.load(open(d))
